@@ -16,6 +16,7 @@ from audiolazy import lazy_itertools as lit
 
 ID = "C03"
 inf = float("inf")
+HUGE = [2 ** 63 - 1, 2 ** 63, 2 ** 64 + 5, 10 ** 30, 1e19, 1e300, float(2 ** 63)]
 nan = float("nan")
 
 MAPS = {"inc": lambda v: v + 1, "dbl": lambda v: v * 2, "neg": lambda v: -v,
@@ -405,6 +406,10 @@ def rand_count(rng, seq, for_take):
     n = rng.choice([None, None, -inf_(), nan] + ([inf] if seq.finite else []))
   elif r < 0.31 and not for_take:
     n = rng.choice([inf, -inf_()])      # skip / limit: all or nothing
+  elif r < 0.50 and seq.finite:
+    # finite counts no machine integer holds: still "beyond the remaining
+    # length" (only for finite sequences - nothing could skip that far)
+    n = rng.choice(HUGE)
   return n
 
 
@@ -664,6 +669,9 @@ def run_case(ctx, case):
         ctx.count("short-take-or-peek")
       if isinstance(n, float) and n * 2 % 2 == 1:
         ctx.count("half-count")
+    if op[0] in ("take", "peek", "hub_peek", "skip", "limit") and \
+       isinstance(op[2], (int, float)) and 2 ** 62 < op[2] < inf:
+      ctx.count("count-beyond-machine-integers:" + op[0])
     compared += 1
     if got != want:
       ctx.violation("%s/wrong-result" % op[0], case, step=step, op=op,
@@ -733,6 +741,8 @@ def finish(ctx):
              "hub_tee",
              "hub_op", "hub_m", "thub_scalar", "thub_list"]:
     ctx.need("op:" + op, 20)
+  for op in ["take", "peek", "skip", "limit"]:
+    ctx.need("count-beyond-machine-integers:" + op, 20)
   ctx.need("expected-exc:StopIteration", 5)
   ctx.need("expected-exc:IndexError", 5)
   ctx.need("hub-exhausted-IndexError", 20)
